@@ -71,21 +71,25 @@ Section IsoRxn.
   Variable ext_bit : bool.
   Variable lv : label_vars.
 
-  (** the body of the `for rate_suffix in ...` loop for one substrate pattern [p] *)
-  Definition iso_rxn_for (r : brxn) (lmap : list Z) (p : list bool) : result lrxn :=
+  (** the body of the `for rate_suffix in ...` loop for one substrate pattern [p];
+      [mk_iso_rxn] is everything after the product suffix has been computed *)
+  Definition mk_iso_rxn (r : brxn) (suffix psuffix : list bool) : lrxn :=
     let bs := subs_of (r_stoich r) in
     let bp := prods_of (r_stoich r) in
-    let lps := labels_per lv bs in
-    let lpp := labels_per lv bp in
-    let suffix := p ++ external_labels ext_bit (total lpp) (total lps) in
-    match map_s2p suffix lmap with
+    let ns := assign_labels bs (split_label suffix (labels_per lv bs)) in
+    let np := assign_labels bp (split_label psuffix (labels_per lv bp)) in
+    mkLR (LIso (r_name r) suffix) (r_fn r)
+         (rename_args (replacements bs ns bp np) (r_args r))
+         (map (fun kz => (fst kz, CZ (snd kz))) (repack ns np)).
+
+  Definition suffix_of (r : brxn) (p : list bool) : list bool :=
+    p ++ external_labels ext_bit (total (labels_per lv (prods_of (r_stoich r))))
+                         (total (labels_per lv (subs_of (r_stoich r)))).
+
+  Definition iso_rxn_for (r : brxn) (lmap : list Z) (p : list bool) : result lrxn :=
+    match map_s2p (suffix_of r p) lmap with
     | None => Err ErrIndex
-    | Some psuffix =>
-      let ns := assign_labels bs (split_label suffix lps) in
-      let np := assign_labels bp (split_label psuffix lpp) in
-      Ok (mkLR (LIso (r_name r) suffix) (r_fn r)
-               (rename_args (replacements bs ns bp np) (r_args r))
-               (map (fun kz => (fst kz, CZ (snd kz))) (repack ns np)))
+    | Some psuffix => Ok (mk_iso_rxn r (suffix_of r p) psuffix)
     end.
 
   Definition create_iso_rxns (r : brxn) (lmap : list Z) : result (list lrxn) :=
